@@ -24,6 +24,11 @@ LEAF = {'signature': {'name': 'leaf', 'parameters': [{'name': 'id'}, {'name': 'p
 
 def make_namespace(ctx, depth2):
     """Returns (namespace dict, expected flattening).  Expected: {instance path: {'id','p','q','inp':(producer path,file,method)|None}}"""
+    # literal overrides of a defaulted parameter are either a text or the (falsy) empty string -- chosen once per namespace
+    empty = ctx.flag('literal_overrides_are_empty')
+
+    def QL(name):
+        return '' if empty else name
     foo = 'FOO-entry'
     entry_args = {'foo': foo}
     main_params = {'foo': foo, 'bar': 'BAR-default'}
@@ -53,7 +58,7 @@ def make_namespace(ctx, depth2):
     def inner_def():
         ic = inner_choices
         ex = [leaf_call('ia', '%(tag)s.ia', {'lit': 'P-ia', '%(x)s': '%(x)s'}[ic['ia_p']],
-                        {'omitted': None, 'lit': 'Q-ia', '%(y)s': '%(y)s'}[ic['ia_q']], None),
+                        {'omitted': None, 'lit': QL('Q-ia'), '%(y)s': '%(y)s'}[ic['ia_q']], None),
               leaf_call('ib', '%(tag)s.ib', 'P-ib', None,
                         None if ic['ib_inp'] == 'omitted' else ic['ib_inp'])]
         steps = {'ia': 'leaf', 'ib': 'leaf'}
@@ -83,10 +88,10 @@ def make_namespace(ctx, depth2):
             q = ctx.choice('main:%s:q' % step, ['omitted', 'lit', '%(bar)s'])
             p = ctx.choice('main:%s:p' % step, ['lit', '%(foo)s'])
             main_exec.append(leaf_call(step, 'main.%s' % step, {'lit': 'P-%s' % step, '%(foo)s': '%(foo)s'}[p],
-                                       {'omitted': None, 'lit': 'Q-%s' % step, '%(bar)s': '%(bar)s'}[q],
+                                       {'omitted': None, 'lit': QL('Q-%s' % step), '%(bar)s': '%(bar)s'}[q],
                                        None if inp == 'omitted' else inp))
             expected[(step,)] = {'id': 'main.%s' % step, 'p': {'lit': 'P-%s' % step, '%(foo)s': main_params['foo']}[p],
-                                 'q': {'omitted': 'Q-default', 'lit': 'Q-%s' % step, '%(bar)s': main_params['bar']}[q],
+                                 'q': {'omitted': 'Q-default', 'lit': QL('Q-%s' % step), '%(bar)s': main_params['bar']}[q],
                                  'inp': None if inp == 'omitted' else parse_ref(inp, ())}
         else:
             others = [s for s in ('sa', 'sb', 'sc') if kinds[s] == 'leaf' and ('sa', 'sb', 'sc').index(s) < ('sa', 'sb', 'sc').index(step)]
@@ -95,10 +100,10 @@ def make_namespace(ctx, depth2):
             y = ctx.choice('main:%s:y' % step, ['omitted', 'lit'])
             args = {'tag': 'tag-%s' % step, 'x': {'lit': 'X-%s' % step, '%(foo)s': '%(foo)s'}.get(x, x)}
             if y == 'lit':
-                args['y'] = 'Y-%s' % step
+                args['y'] = QL('Y-%s' % step)
             main_exec.append({'target': '<%s>' % step, 'args': args})
             xval = {'lit': 'X-%s' % step, '%(foo)s': main_params['foo']}.get(x, x)
-            env = {'tag': 'tag-%s' % step, 'x': xval, 'y': 'Y-%s' % step if y == 'lit' else 'Y-default'}
+            env = {'tag': 'tag-%s' % step, 'x': xval, 'y': QL('Y-%s' % step) if y == 'lit' else 'Y-default'}
             ic = inner_choices
 
             def val(v):
@@ -108,7 +113,7 @@ def make_namespace(ctx, depth2):
                 return v
             pa = {'lit': 'P-ia', '%(x)s': env['x']}[ic['ia_p']]
             expected[(step, 'ia')] = {'id': env['tag'] + '.ia', 'p': val(pa),
-                                      'q': {'omitted': 'Q-default', 'lit': 'Q-ia', '%(y)s': env['y']}[ic['ia_q']], 'inp': None}
+                                      'q': {'omitted': 'Q-default', 'lit': QL('Q-ia'), '%(y)s': env['y']}[ic['ia_q']], 'inp': None}
             ib_inp = ic['ib_inp']
             if ib_inp == 'omitted':
                 e_inp = None
@@ -285,7 +290,7 @@ def main(tier, seed, only=None):
                      'FlowIRConcrete.validate']
     rep.bounds = {'namespace': 'entry workflow with 3 steps (two may instantiate a nested workflow, possibly both), nested workflow with 2 leaf steps'
                                + (' and optionally a third nesting level' if depth2 else ''),
-                  'call sites': 'each parameter literal / forwarded parent parameter / default; inputs: omitted, output of a sibling (<s>:output, <s/file>:ref), '
+                  'call sites': 'each parameter literal (a text, or the empty string overriding a non-empty default) / forwarded parent parameter / default; inputs: omitted, output of a sibling (<s>:output, <s/file>:ref), '
                                 'of a step nested in a sibling workflow (<s/ia>:output), or handed down through a workflow parameter',
                   'faults': FAULTS, 'max_paths': max_paths}
     rep.outside = ['text inside arguments beyond the token grammar', 'environments and key-outputs naming', 'replicas', 'variables of components']
